@@ -27,6 +27,31 @@ REC = []
 SHAPES = {}
 
 
+class EqAll:
+  """Compares equal to everything (like unittest.mock.ANY)."""
+  def __eq__(self, other):
+    return True
+
+  def __ne__(self, other):
+    return False
+  __hash__ = None
+
+
+class EqRaises:
+  """Comparison gives something whose truth value is ambiguous (like a numpy array)."""
+  def __eq__(self, other):
+    return self
+
+  def __bool__(self):
+    raise ValueError('The truth value of an array is ambiguous')
+  __hash__ = None
+
+
+def caller_value(i):
+  """Caller-supplied values: mostly plain objects, sometimes objects with an unusual __eq__ / None."""
+  return (object(), EqAll(), object(), EqRaises(), None)[i % 5]
+
+
 class Shape:
   def __init__(self, name, sig, pos, defaults, kwonly, varargs, varkw, p1, p2, kind):
     self.name, self.sig, self.pos, self.defaults = name, sig, pos, defaults
@@ -208,10 +233,10 @@ def overlay(bindings, eff):
 def run_call(sh, fn, split, bindings, eff, res, desc):
   """Calls `fn` (already the right callable, invoked by the caller in the right ambient scope) -> compare."""
   m, npos, xpos, xkw = split
-  pos_vals = [('caller', p) for p in sh.pos[:npos]]
-  pos_vals = [object() for _ in pos_vals]
-  extra = [object() for _ in range(xpos)]
-  kw_vals = {p: (object() if (npos + xpos + len(eff)) % 2 else None) for p, mode in m.items() if mode == 'kw'}
+  salt = npos + xpos + len(eff) + len(bindings)
+  pos_vals = [caller_value(salt + i) for i in range(npos)]
+  extra = [caller_value(salt + 3 + j) for j in range(xpos)]
+  kw_vals = {p: caller_value(salt + 1 + j) for j, (p, mode) in enumerate(sorted(m.items())) if mode == 'kw'}
   if xkw:
     kw_vals['w'] = object()
   ov = overlay(bindings, eff)
@@ -258,7 +283,7 @@ def run_call(sh, fn, split, bindings, eff, res, desc):
         elif p in ov:
           res.w('positional_beats_binding' if p in sh.pos[:npos] else 'keyword_beats_binding')
       else:
-        if got[p] != v:
+        if isinstance(got[p], (EqAll, EqRaises)) or got[p] != v:
           res.violation('wrong_binding', '%s: parameter %s received %r, model says binding %r (overlay of %r)' %
                         (desc, p, got[p], v, eff), desc)
         else:
@@ -266,21 +291,21 @@ def run_call(sh, fn, split, bindings, eff, res, desc):
           if sum(1 for (s, q) in bindings if q == p and (s == '' or ('/'.join(eff) + '/').startswith(s + '/'))) > 1:
             res.w('longer_prefix_overrides')
     else:
-      if got[p] != sh.defaults[p]:
+      if isinstance(got[p], (EqAll, EqRaises)) or got[p] != sh.defaults[p]:
         res.violation('default_overridden', '%s: parameter %s has no source but received %r (default %r)' %
                       (desc, p, got[p], sh.defaults[p]), desc)
       else:
         res.w('default_left_alone')
         if any(q == p for (_, q) in bindings):
           res.w('nonprefix_ignored')
-  if sh.varargs and tuple(got['args']) != tuple(extra) or (
-      sh.varargs and any(x is not y for x, y in zip(got['args'], extra))):
+  if sh.varargs and (len(got['args']) != len(extra) or any(x is not y for x, y in zip(got['args'], extra))):
     res.violation('varargs_changed', '%s: *args received %r' % (desc, got['args']), desc)
   if sh.varkw:
     exp_kw = {k: v for k, (h, v) in expect.items() if k not in names}
     gk = got['kw']
     if set(gk) != set(exp_kw) or any(
-        (gk[k] is not v) if expect[k][0] == 'id' else (gk[k] != v) for k, v in exp_kw.items()):
+        (gk[k] is not v) if expect[k][0] == 'id' else (isinstance(gk[k], (EqAll, EqRaises)) or gk[k] != v)
+        for k, v in exp_kw.items()):
       res.violation('varkw_wrong', '%s: **kw received %r, model %r' % (desc, gk, exp_kw), desc)
     elif any(expect[k][0] == 'eq' for k in exp_kw):
       res.w('varkw_binding')
